@@ -70,8 +70,8 @@ CHECKS["C13"] = mc("E1-choice-tree + E3",
   "Weight vectors whose lcm of node sums makes the tree exceed the budget are skipped and counted.", "4/C13")
 CHECKS["C14"] = mc("E3-bounded-exhaustive x fault plans",
   "bounded-exhaustive enumeration of composition trees x fault plans (deviation bound 2) on the real combinators through the erased layer, differential against the CompRef interpreter",
-  "All composition trees up to depth 2 (thorough: plus a stride of depth 3) over {probe, Identity, then, and, map over [T;2]/(T,T)/Vec, then_map, apply_n_times 0..3}; failure plans none / every single probe call / every pair: output value, error path, probe log (order, inputs, words drawn) and final tape position must equal CompRef's; Identity, Constant, GenomeExtractor, GenomeScorer, Mutate/Recombine wrappers add nothing.",
-  "Error paths are compared through the derived Debug of ThenError/AndError/MapError.", "4/C14")
+  "All composition trees up to depth 2 (thorough: plus a stride of depth 3) over {probe, Identity, then, and, map over [T;2]/(T,T)/Vec, then_map, apply_n_times 0..3}; failure plans none / every single probe call / every pair: output value, error path, probe log (order, inputs, words drawn) and final tape position must equal CompRef's; every plan applied a second time to the same combinator value; mapped vectors of 255..70001 elements with the failure at the far end; Identity, Constant, GenomeExtractor, GenomeScorer, Mutate/Recombine wrappers add nothing. The reported error through the interface generic code has: for 19 typed compositions (then/and/map/repeat nestings up to depth 4, also boxed through DynOperator) the source() chain from the reported error has depth+1 links and ends at the failing part's own error.",
+  "Error paths are compared through the derived Debug of ThenError/AndError/MapError, and through Display + source() in the error-chain cases.", "4/C14")
 CHECKS["C15"] = mc("E3-bounded-exhaustive",
   "small-scope exhaustive algebra: all pairs/triples over a boundary value domain, all short result vectors",
   "All pairs and triples over {i64::MIN,-2,-1,0,1,2,i64::MAX} for Score/Error/TestResult (all six operators, cmp, partial_cmp, max/min, transitivity, antisymmetry, score-vs-error incomparability), all result vectors of length 0..3 over -2..2 plus all vectors of length 4 over {-1,0,1}, extremes and long vectors (255..300 elements) through both constructors and polarities, all pairs of those for TestResults/EcIndividual, and 5 scorers x 3 genome sources for IndividualGenerator/with_scorer/GenomeScorer. Float results (Score<f64>, Error<f64>): for every length 0..70 and around 128..4096, 1000, 1499, 2000, 10000, 65536, 70001 and four value patterns whose rounding depends on the order, the total equals the left-to-right sum bit for bit and the per-case results are kept; long integer totals of the same lengths.",
